@@ -5,12 +5,69 @@ HERE = os.path.dirname(os.path.dirname(os.path.abspath(__file__)))
 
 # id -> (level, technique, level text, level note, design ref)
 CHECKS = {
+ "C01": ("exploration", "property-based testing (proptest) against a reference retrace model computed from the generated mapping AST; metamorphic renderings; complete enumerated by-line query universe",
+   "Generated-input search: every by-line query of the finite universe of each generated mapping, in three renderings, for mapper, mapper-with-params and cache, must equal the answer of a reference model written from the property statement. Exploration: holds on everything generated, no proof.",
+   "Trusts the reference model (formulas of the statement; cross-checked mapper vs cache) and the generator's domain (non-empty names, numbers < 2^32-1). Buffers 8-byte aligned.", "DESIGN.md §4 C01"),
  "C02": ("exploration", "property-based differential testing (proptest): mapper vs cache over the complete enumerated query universe of generated, token-mutated and corpus mappings",
-         "Generated-input search with a differential oracle: every query of the finite universe derived from each generated mapping must be answered identically by ProguardMapper and by ProguardCache::parse(write(..)). Exploration, not proof: holds on everything generated.",
-         "Trusts the harness's universe construction and that both implementations are not wrong in the same way (C01/C03/C04 add an independent model). Buffers are 8-byte aligned.", "DESIGN.md §4 C02"),
+   "Generated-input search with a differential oracle: every query of the finite universe derived from each mapping must be answered identically by ProguardMapper and by ProguardCache::parse(write(..)), and by the mapper with and without parameter index.",
+   "Both implementations could be wrong in the same way (C01/C03/C04 add an independent model). Buffers 8-byte aligned.", "DESIGN.md §4 C02"),
+ "C03": ("exploration", "property-based testing (proptest) against a by-params reference model from the AST, mapper and cache",
+   "Generated-input search over mappings rich in overloads, duplicates and inline groups; every (class, method, params) triple of the universe is compared with the model.",
+   "The 'inlined callee' rule is taken from the statement (next record is a method with the identical usable range); header/field records never split such a pair by construction.", "DESIGN.md §4 C03"),
+ "C04": ("exploration", "property-based testing (proptest) against a lookup reference model plus a cross-API invariant; adversarially similar names",
+   "Generated-input search incl. a wide profile (hundreds of similar class names): every present name, near-miss and sort neighbour is looked up in mapper and cache and compared with the model; remap_method answers are cross-checked against by-line frames.",
+   "Near-miss set is finite (edit distance 1, '$'/'.', case, sort neighbours).", "DESIGN.md §4 C04"),
+ "C05": ("exploration", "property-based testing (proptest) print->parse with expected records from the AST, single-violation mutants, bounded-exhaustive slot product and token strings against a strict recogniser, corpus lines",
+   "Generated and bounded-exhaustive search over the line grammar: well-formed lines must parse to exactly their printed parts (alone and embedded), lines with exactly one documented violation must be errors carrying the line.",
+   "The recogniser is narrower than the parser; unclassified lines are only checked for totality. exhaustive=true refers to the named finite sub-spaces only.", "DESIGN.md §4 C05"),
+ "C06": ("exploration", "property-based testing and bounded-exhaustive enumeration with a metamorphic resynchronisation relation (records(A+nl+B) = records(A)++records(B)) and totality invariants; libFuzzer stage in thorough",
+   "Generated-input search over byte strings, token soups, hostile mutants, corpus cuts and all short strings over a 9-symbol alphabet; thorough adds a coverage-guided libFuzzer campaign with the same oracle in-target.",
+   "Phantom error items for blank trailing input are normalised away (documented in DESIGN.md).", "DESIGN.md §4 C06"),
+ "C07": ("exploration", "property-based testing (proptest): per-line model composed from the public single-line API, reference-model expectation for AST-kinded texts, conservation and identity relations, mapper==cache",
+   "Generated-input search over mappings x decorated trace texts; output must equal the per-line rule of the statement.",
+   "Single-line parsers/printers are trusted here and covered by C17/C01.", "DESIGN.md §4 C07"),
+ "C08": ("exploration", "property-based testing (proptest): structural preservation oracle built from single-element lookups, typed<->text agreement on canonical traces",
+   "Generated-input search over mappings x typed traces with mapped and unmapped throwables/frames and cause chains.",
+   "Element lookups (remap_throwable, remap_frame) are trusted here and covered by C01/C04.", "DESIGN.md §4 C08"),
+ "C09": ("exploration", "property-based testing (proptest) with an independent layout decoder and AST-derived expected records; corpus files",
+   "Generated-input search: every written file is decoded by a decoder written only from the format documentation and checked for all layout/ordering invariants, equality with the records derived from the AST, and the library's self-test.",
+   "Decoder hard-codes format version 1 as documented in src/cache/mod.rs.", "DESIGN.md §4 C09"),
+ "C10": ("exploration", "property-based differential testing (proptest) of two releases: frozen pinned 5.5.0 copy vs working tree, both writers x both readers on the same bytes",
+   "Generated-input search over mappings and corpus files; a reader either rejects with WrongVersion or answers the whole decoding universe exactly like the other release's reader on the same bytes.",
+   "'Every release' = two releases (pinned snapshot in /verif/pinned, current tree).", "DESIGN.md §4 C10"),
+ "C11": ("fault_enumeration", "fault enumeration over generated caches: every strict prefix and every single-field header edit, expected error kind from the independent layout model",
+   "Per generated cache the fault space (all prefixes, all listed header edits) is enumerated completely; files are generated with proptest.",
+   "Complete per file, not over all files. Buffers 8-byte aligned.", "DESIGN.md §4 C11"),
+ "C12": ("exploration", "property-based testing (proptest) with structured corruption operators on valid caches, panic/overflow detection and pointer-range oracle; libFuzzer stage in thorough",
+   "Generated-input search over corrupted buffers x the query universe; thorough adds exhaustive (field,value) edits of small files and a coverage-guided libFuzzer campaign with the oracle in-target.",
+   "Overflow is observable because the harness builds the crate with overflow-checks. test()/display()/debug_* helpers excluded.", "DESIGN.md §4 C12"),
+ "C13": ("exploration", "property-based testing (proptest) / fuzzing of the whole pipeline with hostile numbers, mutants and raw bytes; no-panic/no-error oracle; libFuzzer stage in thorough",
+   "Generated-input search; thorough adds a coverage-guided libFuzzer campaign over the same pipeline.",
+   "Overflow observable through overflow-checks in the harness profile.", "DESIGN.md §4 C13"),
+ "C14": ("exploration", "property-based testing (proptest) with byte-equality oracle across repeated writes, 8 threads and 8 separately started processes; length law from the layout model",
+   "Generated-input search over mappings and corpus files; all serialisations of the same bytes must be identical across hash seeds, threads and processes.",
+   "One platform only.", "DESIGN.md §4 C14"),
+ "C15": ("fault_enumeration", "fault enumeration with scripted std::io::Write sinks (chunk limits, short-once, fail, interrupt at every call index) over generated mappings",
+   "Per generated mapping the sink fault space is enumerated (every call index; k=1..16); oracle: canonical bytes on success, Err on sink failure, accepted bytes always a prefix.",
+   "Sinks obey the Write contract. Complete per mapping for call indices; shortened lengths sampled for large writes.", "DESIGN.md §4 C15"),
+ "C16": ("exploration", "property-based testing (proptest) from descriptor ASTs, bounded-exhaustive small descriptors, precise unterminated variants, single-edit corruptions, mapper==cache",
+   "Generated and bounded-exhaustive search over the descriptor language; expected rendering computed from the AST and the reference class table.",
+   "exhaustive=true refers to the 1813 small descriptors only.", "DESIGN.md §4 C16"),
+ "C17": ("exploration", "property-based round-trip testing (proptest): try_parse(print(T)) == T and print idempotence",
+   "Generated-input search over typed traces, frames and throwables in the statement's domain.",
+   "Domain predicate taken from the statement.", "DESIGN.md §4 C17"),
+ "C18": ("exploration", "property-based testing (proptest) against an independent SHA-1/UUIDv5 implementation; LF/CRLF metamorphic check; cross-process equality",
+   "Generated-input search over byte strings, mappings and corpus files; ids compared with an independent computation self-tested against published vectors.",
+   "SHA-1 model verified against FIPS 180 vectors and the repository's five literal ids.", "DESIGN.md §4 C18"),
+ "C19": ("exploration", "property-based testing (proptest) with truth computed from the generated line list and the fold over the public record iterator",
+   "Generated-input search over files whose deciding record is placed adversarially (after 49/50/51/1000/10000 negatives, last line without terminator).",
+   "min_api values with a leading '+' are not generated.", "DESIGN.md §4 C19"),
+ "C20": ("exploration", "compile-time Send+Sync assertions (type list enumerated) plus randomized multi-thread stress compared with the single-threaded transcript",
+   "Static part decides the realistic regressions (non-Send/Sync fields fail to compile); dynamic part is stress exploration with real threads over generated mappings.",
+   "The harness does not own the schedule; interleavings are sampled, not enumerated.", "DESIGN.md §4 C20"),
 }
 ALL = ["C%02d" % i for i in range(1, 21)]
-PENDING_REASON = "check not built yet in this round (planned, see DESIGN.md §4); not claimed until it exists"
+PENDING_REASON = "not claimed"
 
 def main():
     checks = []
@@ -42,6 +99,8 @@ def main():
         "engines": [
             {"name": "pgverif", "path": "/verif/harness", "serves_properties": [c["property_id"] for c in checks],
              "kind_free_text": "Rust harness: proptest-driven generators with shrinking, reference models, differential/metamorphic/round-trip oracles, bounded-exhaustive enumerations, fault enumeration; evidence and replay writer"},
+            {"name": "libfuzzer", "path": "/verif/fuzz", "serves_properties": ["C06", "C12", "C13"],
+             "kind_free_text": "cargo-fuzz / libFuzzer targets with the semantic oracle inside the target; used by the thorough tier of C06, C12, C13"},
         ],
         "checks": checks,
         "not_applicable": [{"property_id": p, "reason": PENDING_REASON} for p in ALL if p not in CHECKS],
